@@ -608,8 +608,22 @@ def arbitrary_stream(ctx):
     return tuples
 
 
+def precond_stream(ctx, count, repl="-"):
+    """positional-precondition shapes (gen.precond) on short inputs; its own generator state, so the
+    other streams of a slice are what they were before this one was added"""
+    rng = random.Random(ctx.seed * 7919 + 17)
+    out = []
+    while len(out) < count:
+        al = rng.choice(["ab", "abc", "ab\n", "aAb"])
+        pat = gen.pp(gen.precond(rng, al.replace("\n", "") or "ab"), "xpath", rng)
+        fl = rng.choice(["", "", "i", "m", "s", "im"])
+        for inp in ["", rng.choice(al)] + gen.inputs_for(rng, al, 2):
+            out.append(("xpath", fl, pat, inp, repl))
+    return out
+
+
 def slice_C05(ctx):
-    cases = mk_cases(arbitrary_stream(ctx), "mrta")
+    cases = mk_cases(arbitrary_stream(ctx) + precond_stream(ctx, ctx.n(2000, 20000)), "mrta")
     code, model, dis = run_slice(cases)
     violations, nontrivial = [], set()
     hist = collections.Counter()
@@ -760,6 +774,7 @@ def slice_C08(ctx):
     for d, fl, pat, inp, ast in random_stream(ctx, ctx.n(12000, 120000), per_pattern=4, shapes=0.3,
                                               alphabets=["ab", "abc", "ab\n", "aAb", "ab1"]):
         tuples.append((d, fl, pat, inp, "[$1]"))
+    tuples += precond_stream(ctx, ctx.n(3000, 30000), "[$1]")
     # shapes that trigger each shortcut
     # (pattern text, a text it matches)
     heads = [("ab", "ab"), ("a", "a"), ("[ab]", "b"), ("\\d", "1"), ("^", ""), ("^a", "a"), (".", "b"), ("(a)", "a"),
